@@ -1,5 +1,5 @@
 """C12 — ValueMap is a correct map, sequentially and under concurrency."""
-import json
+import json, random
 import os
 
 import common
@@ -64,6 +64,20 @@ def spec_results(ops):
         else:
             out.append([len(d)])
     return out
+
+
+def final_map(ops):
+    d = {}
+    for c, k, v in ops:
+        if c == 1:
+            d[k] = v
+        elif c == 2:
+            d.setdefault(k, v)
+        elif c in (3, 4):
+            d.pop(k, None)
+        elif c == 5:
+            d.clear()
+    return d
 
 
 def go_run(ops_list):
@@ -217,6 +231,40 @@ def run(res, tier, seed):
     except Broken as b:
         broken = b
 
+    # dict observations in scripts (`==`, `!=`, len, truthiness) after arbitrary histories of the two underlying maps
+    rnd = random.Random(seed * 7 + 1)
+    eqin = []
+    hist_pool = [r["ops"] for r in rows[:400]] + [r["ops"] for r in exh[:: max(1, len(exh) // 200)]]
+    for _ in range(400 if tier == "quick" else 4000):
+        a = list(rnd.choice(hist_pool))
+        k = rnd.random()
+        if k < 0.3:
+            b = list(a)                                   # the same history: equal
+        elif k < 0.6:
+            b = list(a) + [[rnd.choice([1, 4, 3]), rnd.randrange(1, 6), rnd.randrange(1, 4)] for _ in range(rnd.randrange(1, 3))]
+            if rnd.random() < 0.5:                        # same number of keys, another key set
+                ks = sorted(final_map(a))
+                if ks:
+                    b = list(a) + [[3, ks[0], 0], [1, max(ks) + 1 + rnd.randrange(2), final_map(a)[ks[0]]]]
+        else:
+            b = list(rnd.choice(hist_pool))
+        eqin.append({"a": a, "b": b})
+    eqrows, _ = common.run_harness(["c12-eq"], stdin="\n".join(json.dumps(e) for e in eqin) + "\n", timeout=600)
+    eq_bad = 0
+    eq_stats = {"equal": 0, "same_size_other_keys": 0, "other": 0}
+    for e, row in zip(eqin, eqrows):
+        da, db = final_map(e["a"]), final_map(e["b"])
+        same = da == db
+        eq_stats["equal" if same else ("same_size_other_keys" if len(da) == len(db) and set(da) != set(db) else "other")] += 1
+        want = {"a == b": "1" if same else "0", "b == a": "1" if same else "0", "a != b": "0" if same else "1", "a.len()": str(len(da)),
+                "b.len()": str(len(db)), "a ? 1 : 0": "1" if da else "0", "[a] == [b]": "1" if same else "0"}
+        diff = {q: (row.get(q), w) for q, w in want.items() if row.get(q) != w}
+        if diff and eq_bad < 2:
+            res.violation({"what": "script-level observation of two dicts differs from what plain maps give (observed, expected)",
+                           "ops_a": e["a"], "ops_b": e["b"], "contents_a": {f"k{k}": v for k, v in da.items()}, "contents_b": {f"k{k}": v for k, v in db.items()},
+                           "opcodes": "0 Load 1 Store 2 LoadOrStore 3 LoadAndDelete 4 Delete 5 Clear 6 Range 7 Length; [op,key,val]", "differences": diff})
+            eq_bad += 1
+    res.cov["script_level_dict_observations"] = {"pairs": len(eqin), "by_relation": eq_stats, "disagreements": eq_bad}
     demo = [k for k in common.known_for("C12") if k.get("key") == KF_SNAPSHOT]
     if demo:
         d, _ = common.run_harness(["c12-snapshot"], timeout=300)
